@@ -98,6 +98,22 @@ def genbank_text(rec):
     return h.getvalue()
 
 
+def relabelled(rec, mode):
+    """the same plasmid as a curator would annotate it: the resistance cassette carries further labels (its tag
+    not the first), other features carry several labels"""
+    import copy
+    from moclo.registry._utils import _ANTIBIOTICS
+    rec = copy.deepcopy(rec)
+    for ft in rec.features:
+        labels = list(ft.qualifiers.get("label", []))
+        if set(labels) & set(_ANTIBIOTICS):
+            if mode in ("tag-second", "both"):
+                ft.qualifiers["label"] = ["resistance marker (curated)"] + labels
+        elif labels and mode in ("others-multi", "both"):
+            ft.qualifiers["label"] = labels + ["alias of " + labels[0]]
+    return rec
+
+
 def build_dir(ctx, case):
     import fs.memoryfs
     from moclo.registry.base import FilesystemRegistry
@@ -106,6 +122,8 @@ def build_dir(ctx, case):
     mem = fs.memoryfs.MemoryFS()
     for f in case["files"]:
         rec, _ = src[f["src"]]
+        if f.get("labels"):
+            rec = relabelled(rec, f["labels"])
         mem.writetext(f["stem"] + "." + f["ext"], genbank_text(rec))
     for d in case["dirs"]:
         mem.makedir(d)
@@ -235,7 +253,8 @@ def gen_dir(rng, nsrc):
             continue
         stems.add(stem)
         files.append({"stem": stem, "ext": rng.choice(["gb", "gb", "gbk", "gbk", "genbank", "txt", "fasta", "GB"]),
-                      "src": rng.randrange(nsrc)})
+                      "src": rng.randrange(nsrc),
+                      "labels": rng.choice([None, None, "tag-second", "others-multi", "both"])})
     return {"files": files, "dirs": rng.sample(["sub", "old.gb", "x"], rng.randint(0, 2)),
             "junk": rng.sample(["README", "notes.txt", "seq.fa", ".hidden"], rng.randint(0, 2))}
 
